@@ -223,6 +223,32 @@ def bounded(tier):
                     'the velocity claim, float64, tol 1e-9, generator models of 1-6 links', run, backend='bounded', kind='bounded', budget=2400)
 
 
+def take_contract(nmax, kmax):
+  """function-level contract of scan._take: for EVERY index list (repeats, gaps, descending runs, contiguous runs) the result is the gather obj[idxs] on every leaf.
+  scan.tree / scan.link_types reach _take with index lists that the small forests of the regroup obligations cannot all produce (e.g. [0, 0, 2] needs 7 links):
+  the callee contract covers them for all callers."""
+  def run():
+    import itertools
+    from brax import scan
+    count = 0
+    for n in range(1, nmax + 1):
+      payload = {'a': jp.arange(100, 100 + n), 'b': (jp.arange(7 * n).reshape(n, 7) + 1000.0)}          # distinct ids on every leaf (two leaf ranks)
+      for k in range(1, kmax + 1):
+        for idxs in itertools.product(range(n), repeat=k):
+          idxs = list(idxs)
+          out = scan._take(payload, idxs)
+          wa = np.asarray(payload['a'])[idxs]
+          wb = np.asarray(payload['b'])[idxs]
+          count += 1
+          if np.asarray(out['a']).shape != wa.shape or not np.array_equal(np.asarray(out['a']), wa) or not np.array_equal(np.asarray(out['b']), wb):
+            return Result(REFUTED, 'scan._take(obj, %s) on %d rows returns rows %s' % (idxs, n, (np.asarray(out['a']) - 100).tolist()), witness={'idxs': idxs, 'rows': n},
+                          replay={'reproduced': True, 'idxs': idxs, 'returned_rows': (np.asarray(out['a']) - 100).tolist(), 'expected_rows': idxs})
+    return Result(PROVED, 'all %d index lists (rows <= %d, length <= %d): _take is the gather on every leaf (payload = element ids, so the statement is parametric in the data)' % (count, nmax, kmax),
+                  stats={'index_lists': count})
+  return Obligation('C01/scan._take/gather', 'brax.scan:_take', 'for EVERY index list idxs over n <= %d rows with len <= %d (repeats, gaps, any order): _take(obj, idxs)[i] = obj[idxs[i]] on every leaf of the pytree '
+                    '(the contiguous-run shortcut included); exhaustive in the index list, parametric in the payload' % (nmax, kmax), run, backend='enum', budget=600)
+
+
 def obligations(tier):
   Q, Th = ('quick', 'thorough'), ('thorough',)
   obs = []
@@ -236,7 +262,7 @@ def obligations(tier):
   for w in ('h', 's'):
     obs.append(link_step(w, 'free', 'vel', Q, origin=True))
     obs.append(link_step(w, 'root', 'vel', Q, origin=True))
-  obs += [regroup_tree(4), regroup_types(4 if tier == 'quick' else 5), bounded(tier)]
+  obs += [regroup_tree(4), regroup_types(4 if tier == 'quick' else 5), take_contract(4, 4) if tier == 'quick' else take_contract(5, 5), bounded(tier)]
 
   def _sv():
     from brax import kinematics
